@@ -130,6 +130,10 @@ pub struct FCase {
     /// values in [-30, 30] (scaled by 0.4 for the f32 types)
     pub vals: Vec<Fx>,
     pub tag: u16,
+    /// messages of an earlier check node processed by the *same* arithmetic object
+    /// (any degree, typically larger): the rule must not depend on that history
+    #[serde(default)]
+    pub warm: Vec<Fx>,
 }
 
 fn fvals(d: usize) -> BoxedStrategy<Vec<f64>> {
@@ -160,8 +164,8 @@ fn fvals(d: usize) -> BoxedStrategy<Vec<f64>> {
 
 fn f_strategy(_t: Tier) -> BoxedStrategy<FCase> {
     (prop_oneof![4 => 2usize..=4, 4 => 5usize..=10, 2 => 11usize..=30], any::<u16>())
-        .prop_flat_map(|(d, tag)| (fvals(d), Just(tag)))
-        .prop_map(|(vals, tag)| FCase { vals: vals.into_iter().map(Fx).collect(), tag })
+        .prop_flat_map(|(d, tag)| (fvals(d), Just(tag), prop_oneof![2 => Just(vec![]), 3 => (2usize..=40).prop_flat_map(|w| proptest::collection::vec(-25.0f64..25.0, w))]))
+        .prop_map(|(vals, tag, warm)| FCase { vals: vals.into_iter().map(Fx).collect(), tag, warm: warm.into_iter().map(Fx).collect() })
         .boxed()
 }
 
@@ -172,6 +176,11 @@ fn f_one<F: Fl, A: FArith<F>>(name: &str, a: &mut A, case: &FCase, wide: bool, p
     let vals: Vec<f64> = fv.iter().map(|x| x.to64()).collect();
     let d = vals.len();
     let sources = sources_for(d, case.tag);
+    if case.warm.len() >= 2 {
+        // an earlier, unrelated check node on the same arithmetic object
+        let wv: Vec<F> = case.warm.iter().map(|x| F::from64(x.0 * scale)).collect();
+        let _ = run_rule(name, a, &wv, &sources_for(wv.len(), case.tag ^ 0x5a5a))?;
+    }
     let out = run_rule(name, a, &fv, &sources)?;
     let sum_phi: f64 = vals.iter().map(|x| phi(x.abs())).sum();
     let maxabs = vals.iter().fold(0.0f64, |m, x| m.max(x.abs()));
@@ -252,6 +261,7 @@ fn check_f(case: &FCase, p: &mut Probe) -> Check {
     crate::with_f64_types!(all64);
     crate::with_f32_types!(all32);
     p.class_if(case.vals.len() >= 11, "degree>=11");
+    p.class_if(case.warm.len() > case.vals.len(), "after-larger-check");
     Ok(())
 }
 
@@ -267,7 +277,7 @@ fn wide_strategy(_t: Tier) -> BoxedStrategy<FCase> {
     ];
     (2usize..=12, any::<u16>())
         .prop_flat_map(move |(d, tag)| (proptest::collection::vec(v.clone(), d), Just(tag)))
-        .prop_map(|(vals, tag)| FCase { vals: vals.into_iter().map(Fx).collect(), tag })
+        .prop_map(|(vals, tag)| FCase { vals: vals.into_iter().map(Fx).collect(), tag, warm: vec![] })
         .boxed()
 }
 
@@ -347,6 +357,9 @@ fn i8_check_vector<A: I8Arith>(name: &str, a: &mut A, v: &[i8], sources: &[usize
 pub struct I8Case {
     pub vals: Vec<i8>,
     pub tag: u16,
+    /// an earlier check node processed by the same arithmetic object
+    #[serde(default)]
+    pub warm: Vec<i8>,
 }
 
 fn i8_strategy(_t: Tier) -> BoxedStrategy<I8Case> {
@@ -366,18 +379,26 @@ fn i8_strategy(_t: Tier) -> BoxedStrategy<I8Case> {
                     x
                 }),
             ];
-            (vals, Just(tag))
+            (vals, Just(tag), prop_oneof![2 => Just(vec![]), 3 => (2usize..=40).prop_flat_map(|w| proptest::collection::vec(-127i8..=127, w))])
         })
-        .prop_map(|(vals, tag)| I8Case { vals, tag })
+        .prop_map(|(vals, tag, warm)| I8Case { vals, tag, warm })
         .boxed()
 }
 
 fn check_i8(case: &I8Case, p: &mut Probe) -> Check {
     let sources = sources_for(case.vals.len(), case.tag);
     macro_rules! all {
-        ($($t:ident),*) => { $( i8_check_vector(stringify!($t), &mut <$t>::new(), &case.vals, &sources, p)?; p.inner += 1; )* };
+        ($($t:ident),*) => { $( {
+            let mut a = <$t>::new();
+            if case.warm.len() >= 2 {
+                let _ = run_rule(stringify!($t), &mut a, &case.warm, &sources_for(case.warm.len(), case.tag ^ 0x5a5a))?;
+            }
+            i8_check_vector(stringify!($t), &mut a, &case.vals, &sources, p)?;
+            p.inner += 1;
+        } )* };
     }
     crate::with_i8_types!(all);
+    p.class_if(case.warm.len() > case.vals.len(), "after-larger-check");
     Ok(())
 }
 
@@ -493,7 +514,7 @@ pub fn property() -> Property {
             }),
             Box::new(Sub {
                 name: "i8-random",
-                rule: "the sixteen 8-bit types, degree 3..=30, values in [-127,127] (uniform; magnitudes 90..127 and 100..127 so that partial hard-limiting triggers; small; tied minima), distinct non-monotone source tags; oracle per emitted message: exactly one per neighbour with dest = that neighbour's source; never -128; |y - 8 f(x/8)| <= 0.5 L with f the own real-valued min*-approximation (sequential fold) resp. exact box-plus (A-Min*: others for the least reliable neighbour, all inputs for every other neighbour) and L the table look-ups on the path; magnitude <= smallest other magnitude; sign = product of the other signs when the reference exceeds the tolerance; partial-hard-limit types: +-127 only if the reference >= 100 - tol, otherwise |y| < 100; non-trivial = degree >= 3 and reference >= 1 unit",
+                rule: "the sixteen 8-bit types, degree 3..=30 (in 60 % of the cases after an unrelated check node on the same arithmetic object), values in [-127,127] (uniform; magnitudes 90..127 and 100..127 so that partial hard-limiting triggers; small; tied minima), distinct non-monotone source tags; oracle per emitted message: exactly one per neighbour with dest = that neighbour's source; never -128; |y - 8 f(x/8)| <= 0.5 L with f the own real-valued min*-approximation (sequential fold) resp. exact box-plus (A-Min*: others for the least reliable neighbour, all inputs for every other neighbour) and L the table look-ups on the path; magnitude <= smallest other magnitude; sign = product of the other signs when the reference exceeds the tolerance; partial-hard-limit types: +-127 only if the reference >= 100 - tol, otherwise |y| < 100; non-trivial = degree >= 3 and reference >= 1 unit",
                 cases: |t| t.pick(300_000, 10_000_000),
                 strategy: i8_strategy,
                 check: check_i8,
@@ -501,7 +522,7 @@ pub fn property() -> Property {
             }),
             Box::new(Sub {
                 name: "float",
-                rule: "the eight float types, degree 2..=30, values in the working range (|x| <= 30 for f64, <= 12 for f32) by classes (uniform, all equal magnitude, one tiny/zero, two equal minima, zeros, near 100/8 and 127/8, all strong); oracle against the own exact box-plus fold: one message per neighbour; sign; magnitude <= smallest other + tol; phi/tanh within 16 eps ((d + sum phi(|x_j|)) e^|y|/2 + d + |y|); A-Min*: box-plus of the others for the least reliable neighbour, of all inputs for the others, tol 16 eps d (max|x|+1); min*-approx inside [max(0, exact-(d-2) ln2), exact] and equal to its documented sequential definition; non-trivial = degree >= 3 and an exact output magnitude >= 0.1",
+                rule: "the eight float types, degree 2..=30 (in 60 % of the cases after an unrelated check of degree 2..=40 was processed by the same arithmetic object: the rule must not depend on that history), values in the working range (|x| <= 30 for f64, <= 12 for f32) by classes (uniform, all equal magnitude, one tiny/zero, two equal minima, zeros, near 100/8 and 127/8, all strong); oracle against the own exact box-plus fold: one message per neighbour; sign; magnitude <= smallest other + tol; phi/tanh within 16 eps ((d + sum phi(|x_j|)) e^|y|/2 + d + |y|); A-Min*: box-plus of the others for the least reliable neighbour, of all inputs for the others, tol 16 eps d (max|x|+1); min*-approx inside [max(0, exact-(d-2) ln2), exact] and equal to its documented sequential definition; non-trivial = degree >= 3 and an exact output magnitude >= 0.1",
                 cases: |t| t.pick(300_000, 10_000_000),
                 strategy: f_strategy,
                 check: check_f,
